@@ -494,7 +494,37 @@ func (e *Engine) writeReplay(prop string, res *FuncResult, g *Goal, o runOpts) r
 			qo.Relaxed = true
 			rp["candidate_from"] = "quantifier-free relaxation of the undecided obligation (not a verifier model; counts only when confirmed on the real code)"
 		}
+		shapes := []string{""}
+		if relaxed {
+			// case-directed candidates: one attempt per shape of the interface-typed parameters
+			nested := "(cfgp_of (select (select {Mem_Val} (s-arr (select {Cell_stack} (stack_of %s)))) (s-off (select {Cell_stack} (stack_of %s)))))"
+			shapes = []string{
+				// a nested NOT stack with a word operator and case folding
+				"(and ((_ is v_Stack) %s) (not (= (stack_of %s) 0)) (= (select {F_nodeConfig_typ} " + nested + ") #x03) (= (select {F_nodeConfig_sym} " + nested + ") \"\") (not (= (bvand (select {F_nodeConfig_opt} " + nested + ") #x0002) #x0000)))",
+				"(and ((_ is v_Stack) %s) (not (= (stack_of %s) 0)) (= (select {F_nodeConfig_typ} " + nested + ") #x03))",
+				"(and ((_ is v_Stack) %s) (not (= (stack_of %s) 0)))", "(and ((_ is v_Cond) %s) (not (= (cond_of %s) 0)))",
+				"(and ((_ is v_Stack) %s) (= (stack_of %s) 0))", "(and ((_ is v_Cond) %s) (= (cond_of %s) 0))",
+				"((_ is v_str) %s)", "((_ is v_int) %s)", ""}
+			if !hasValParam(res) {
+				shapes = []string{""}
+			}
+		}
+		var tried []string
+		var cands []map[string]any
+		for _, shape := range shapes {
+		qo.Shape = shape
 		w, ok := e.concretiseOpt(res, g, o, qo)
+		if ok && relaxed {
+			sig := w.GoTest[strings.LastIndex(w.GoTest, "func TestGvcReplay"):]
+			dup := false
+			for _, t := range tried {
+				dup = dup || t == sig
+			}
+			if dup {
+				continue
+			}
+			tried = append(tried, sig)
+		}
 		if ok {
 			rp["witness"] = w
 			out, conf := e.runWitness(w, g)
@@ -528,10 +558,37 @@ func (e *Engine) writeReplay(prop string, res *FuncResult, g *Goal, o runOpts) r
 			rp["confirmed_on_real_code"] = conf
 			confirmed = conf
 		}
+		if relaxed && ok {
+			body := w.GoTest[strings.LastIndex(w.GoTest, "func TestGvcReplay"):]
+			if i := strings.Index(body, "}()\n"); i >= 0 {
+				body = body[i+4:]
+			}
+			cands = append(cands, map[string]any{"shape": shape, "test_body": body, "confirmation": rp["confirmation"], "confirmed": confirmed})
+		}
+		if confirmed {
+			break
+		}
+		}
+		if relaxed {
+			rp["candidates"] = cands
+			rp["candidates_tried"] = len(tried)
+		}
 	}
 	data, _ := json.MarshalIndent(rp, "", " ")
 	os.WriteFile(path, data, 0o644)
 	return replayInfo{Path: path, Confirmed: confirmed}
+}
+
+func hasValParam(res *FuncResult) bool {
+	if res.Fn == nil {
+		return false
+	}
+	for _, p := range res.Fn.Params {
+		if sortOfOrInt(p.Type()) == SVal {
+			return true
+		}
+	}
+	return false
 }
 
 func truncate(s string, n int) string {
